@@ -733,6 +733,7 @@ impl<'a> Ref<'a> {
                     let k = self.gen_member_f(kt, s, depth.saturating_sub(1), fuel);
                     let v = self.gen_member_f(vt, s, depth.saturating_sub(1), fuel);
                     if let (Some(k), Some(v)) = (k, v) {
+                        let k = crate::jsval::same_value_zero_canon(k);
                         if !kv.iter().any(|(x, _)| *x == k) {
                             kv.push((k, v));
                         }
@@ -745,6 +746,7 @@ impl<'a> Ref<'a> {
                 let mut out: Vec<JsVal> = vec![];
                 for _ in 0..n {
                     if let Some(x) = self.gen_member_f(t, s, depth.saturating_sub(1), fuel) {
+                        let x = crate::jsval::same_value_zero_canon(x);
                         if !out.contains(&x) {
                             out.push(x);
                         }
